@@ -279,7 +279,7 @@ Print Assumptions genuine_packet_verdict_secrets.
    only; the masks, the close code and the spin bit are the RFC 9000 values *)
 Theorem packet_recv_as_modelled :
   RECV_SKELETON = modelled_skeleton /\
-  GET_EPOCH_OK = true /\ DISCARD_EPOCH_OK = true /\ CLOSE_OK = true /\ SPIN_FN_OK = true /\
+  GET_EPOCH_OK = true /\ DISCARD_EPOCH_OK = true /\ DISCARD_SPACE_CLEARS_ACK_AT = true /\ CLOSE_OK = true /\ SPIN_FN_OK = true /\
   DISCARD_SITES = [(1, 0); (2, 0); (3, 9); (4, 2); (5, 2)] /\ KEY_UPDATE_SITES = [6] /\
   RESERVED_MASK_SHORT = 24 /\ RESERVED_MASK_LONG = 12 /\ PROTOCOL_VIOLATION_CODE = 10 /\ SPIN_BIT = 32.
 Proof. exact packet_recv_as_modelled_lemma. Qed.
